@@ -842,56 +842,37 @@ Lemma nm_frame_lemma (fi : finterp) (p : body) (r r' : env) (v : id) :
   nm_body fi r p = Some r' -> ~ In v (assigned_body p) -> r' v = r v.
 Proof. apply (proj1 (proj2 (nm_frame_all fi))). Qed.
 
-(* ---- the function table: without MOD the interpretation of expressions is the identity ------- *)
+(* ---- the function table is the identity on function symbols (since fix 81bb571) ------------- *)
 Lemma read_expr_id :
-  (forall e, uses_fn2 F_FMOD e = false -> read_expr e = e) /\
-  (forall c, uses_fn2c F_FMOD c = false -> read_cond c = c).
+  (forall e, read_expr e = e) /\ (forall c, read_cond c = c).
 Proof.
-  apply expr_cond_mut; intros; cbn [read_expr read_cond uses_fn2 uses_fn2c] in *;
-    repeat match goal with
-           | H : _ || _ = false |- _ => apply orb_false_iff in H; destruct H
-           end;
-    repeat match goal with
-           | IH : ?P = false -> _ = _, H : ?P = false |- _ => rewrite (IH H); clear IH
-           end; try reflexivity.
-  unfold read_fn2. rewrite H1. reflexivity.
+  apply expr_cond_mut; intros; cbn [read_expr read_cond]; unfold read_fn2;
+    repeat match goal with H : _ = _ |- _ => rewrite H; clear H end; reflexivity.
 Qed.
 
 Lemma read_body_id_all :
-  (forall s, mod_free_stmt s = true -> read_stmt s = s) /\
-  (forall b, mod_free_body b = true -> read_body b = b) /\
-  (forall brs, mod_free_branches brs = true -> read_branches brs = brs).
+  (forall s, read_stmt s = s) /\ (forall b, read_body b = b) /\ (forall brs, read_branches brs = brs).
 Proof.
   pose proof (proj1 read_expr_id) as He. pose proof (proj2 read_expr_id) as Hc.
   apply nm_mutind.
-  - intros x e H. change (negb (uses_fn2 F_FMOD e) = true) in H. apply negb_true_iff in H.
-    change (NAssign x (read_expr e) = NAssign x e). rewrite (He e H). reflexivity.
-  - intros c x e H. change (negb (uses_fn2c F_FMOD c) && negb (uses_fn2 F_FMOD e) = true) in H.
-    apply andb_true_iff in H. destruct H as [H1 H2]. apply negb_true_iff in H1, H2.
-    change (NIf (read_cond c) x (read_expr e) = NIf c x e). rewrite (Hc c H1), (He e H2). reflexivity.
-  - intros brs IHb els IHe H. change (mod_free_branches brs && mod_free_body els = true) in H.
-    apply andb_true_iff in H. destruct H as [H1 H2].
-    change (NBlock (read_branches brs) (read_body els) = NBlock brs els). rewrite (IHb H1), (IHe H2). reflexivity.
+  - intros x e. change (NAssign x (read_expr e) = NAssign x e). rewrite He. reflexivity.
+  - intros c x e. change (NIf (read_cond c) x (read_expr e) = NIf c x e). rewrite Hc, He. reflexivity.
+  - intros brs IHb els IHe. change (NBlock (read_branches brs) (read_body els) = NBlock brs els).
+    rewrite IHb, IHe. reflexivity.
   - reflexivity.
-  - intros s IHs tl IHt H. change (mod_free_stmt s && mod_free_body tl = true) in H.
-    apply andb_true_iff in H. destruct H as [H1 H2].
-    change (BCons (read_stmt s) (read_body tl) = BCons s tl). rewrite (IHs H1), (IHt H2). reflexivity.
+  - intros s IHs tl IHt. change (BCons (read_stmt s) (read_body tl) = BCons s tl). rewrite IHs, IHt. reflexivity.
   - reflexivity.
-  - intros c b IHb tl IHt H.
-    change (negb (uses_fn2c F_FMOD c) && mod_free_body b && mod_free_branches tl = true) in H.
-    apply andb_true_iff in H. destruct H as [H H3]. apply andb_true_iff in H. destruct H as [H1 H2].
-    apply negb_true_iff in H1.
-    change (BrCons (read_cond c) (read_body b) (read_branches tl) = BrCons c b tl).
-    rewrite (Hc c H1), (IHb H2), (IHt H3). reflexivity.
+  - intros c b IHb tl IHt. change (BrCons (read_cond c) (read_body b) (read_branches tl) = BrCons c b tl).
+    rewrite Hc, IHb, IHt. reflexivity.
 Qed.
 
-Lemma read_body_id p : g_no_mod p = true -> read_body p = p.
+Lemma read_body_id p : read_body p = p.
 Proof. apply (proj1 (proj2 read_body_id_all)). Qed.
 
 Lemma read_code_sound_lemma fi ode p r r' :
-  guard_code p = true -> g_no_mod p = true -> fresh_env r p -> nm_body fi r p = Some r' ->
+  guard_code p = true -> fresh_env r p -> nm_body fi r p = Some r' ->
   forall v, exec fi ode r (read_code p) v = r' v.
 Proof.
-  intros Hg Hm Hf Hnm. unfold read_code. rewrite (read_body_id p Hm).
+  intros Hg Hf Hnm. unfold read_code. rewrite (read_body_id p).
   apply (translate_sound_lemma fi ode p r r' Hg Hf Hnm).
 Qed.
